@@ -149,7 +149,25 @@ def common_knobs(rng, plan, buggify=True):
     kn["baseline_watchdog_s"] = 3
 
 
-def choose_program(rng, in_types, dwarf, file_hint=None, bombs=True):
+LAST_WORD_TYPE = {"abbrev": "AB", "attribute": "A", "unit": "U", "symbol": "Y", "entry": "E", "child": "E", "parent": "E",
+                  "root": "E", "name": "S", "offset": "I", "label": "I", "raw": None, "cooked": None, "@AT_type": "E",
+                  "@AT_import": "E", "@AT_sibling": "E", "length": "I", "address": "X", "value": "X", "elem": "X", "form": "I"}
+
+
+def infer_top(text, default="X"):
+    """Type of the value a plain DWARF word sequence leaves on top, from its last word."""
+    toks = text.replace("(", " ").replace(")", " ").split()
+    if not toks:
+        return "D"
+    t = LAST_WORD_TYPE.get(toks[-1], default)
+    if t is None:
+        return "D" if len(toks) == 1 else default
+    if toks[-1] in ("entry", "attribute") and len(toks) >= 2 and toks[-2] == "abbrev":
+        return "X"
+    return t
+
+
+def _choose_program(rng, in_types, dwarf, file_hint=None, bombs=True):
     """Returns (text, info)."""
     k = rng.random()
     if dwarf:
@@ -761,3 +779,10 @@ def gen_mustfail(rng, profile="C14"):
         st.append(P.step(c, "CANCEL", r))
         b.scripts[c] += st
     return b.merge()
+
+
+def choose_program(rng, in_types, dwarf, file_hint=None, bombs=True):
+    text, info = _choose_program(rng, in_types, dwarf, file_hint, bombs)
+    if dwarf and info.get("out") == ["X"] and list(in_types) == ["D"]:
+        info = dict(info, out=[infer_top(text)])
+    return text, info
